@@ -238,6 +238,55 @@ Definition enc_prim_element (c : codec) (t : tag) (v : vr) (p : prim) : outcome 
       end
   end.
 
+(** * [StatefulEncoder::bytes_written]: the increments the code adds, computed
+    from the byte counts REPORTED by the encoding layer (returned value of
+    [encode_element_header] and [encode_primitive], constants 8 for item
+    headers and delimiters, [len()] of buffers it wrote itself). *)
+Definition count_header (c : codec) (t : tag) (v : vr) (len : N) : outcome N :=
+  let len' := if len =? 4294967295 then len else even_len len in
+  match enc_header c t v len' with
+  | Ok (_, n) => Ok n | Err e => Err e | Panic w => Panic w
+  end.
+Definition count_text_value (c : codec) (t : tag) (v : vr) (raw : bytes) : outcome N :=
+  let val := pad_even (text_pad v) raw in
+  match count_header c t v (blen val mod 4294967296) with
+  | Ok n => Ok (n + blen val) | Err e => Err e | Panic w => Panic w
+  end.
+Definition count_binary (c : codec) (t : tag) (v : vr) (p : prim) : outcome N :=
+  let count := snd (enc_prim c p) in
+  match count_header c t v (calc_byte_len p mod 4294967296) with
+  | Ok n => Ok (n + count + (if N.odd count then 1 else 0))
+  | Err e => Err e | Panic w => Panic w
+  end.
+Definition count_prim_element (c : codec) (t : tag) (v : vr) (p : prim) : outcome N :=
+  match p with
+  | PStr s =>
+      match latin1_enc s with
+      | Ok raw => count_text_value c t v raw | Err e => Err e | Panic w => Panic w end
+  | PStrs l =>
+      match latin1_enc_all l with
+      | Ok raws => count_text_value c t v (join_bs raws) | Err e => Err e | Panic w => Panic w end
+  | _ =>
+      match v with
+      | DS | IS =>
+          match p with
+          | PEmpty => count_header c t v 0
+          | PF32 _ | PF64 _ => Err E_Unmodelled
+          | PDate _ | PTime _ | PDateTime _ | PTags _ => count_binary c t v p
+          | _ =>
+              match int_text p with
+              | Some txt =>
+                  match count_header c t v (even_len (blen txt mod 4294967296)) with
+                  | Ok n => Ok (n + (if Nat.odd (length txt) then blen txt + 1 else blen txt))
+                  | Err e => Err e | Panic w => Panic w
+                  end
+              | None => Panic P_Unreachable
+              end
+          end
+      | _ => count_binary c t v p
+      end
+  end.
+
 (** [encode_item_header], [write_bytes], [encode_offset_table]. *)
 Definition st_enc_item_header (c : codec) (len : N) : bytes :=
   enc_item_header c (if len =? 4294967295 then len else even_len len).
@@ -261,7 +310,10 @@ Definition check_prim_case (k : c04_case) : bool :=
       str_eqb b out && N.eqb n count && N.eqb (calc_byte_len p) byte_len
   | CElem c g e v p r =>
       match enc_prim_element (codec_of_index c) (g, e) (vr_of_index_d v) p, r with
-      | Ok b, Ok (b', n) => str_eqb b b' && N.eqb (blen b) n
+      | Ok b, Ok (b', n) =>
+          (* bytes, and the bytes_written counter as the model computes it from the reported counts *)
+          str_eqb b b' && match count_prim_element (codec_of_index c) (g, e) (vr_of_index_d v) p with
+                          | Ok k => N.eqb k n | _ => false end
       | Err 99, _ => true
       | Err x, Err y => N.eqb x y
       | Panic _, Panic _ => true
